@@ -192,35 +192,49 @@ def _fn(mod, name, path):
 
 
 def b_layout(ev):
-    """Get_B_e_pg -> {dim: [(row, dof, deriv, scaled)]}"""
+    """Get_B_e_pg -> {dim: [(row, dof, deriv, scaled)]}, from the stores of the partially evaluated
+    function for self.dim = 2 and 3 (hoisted / named sub-expressions do not matter)"""
+    from translator.peval import PEval
     fn = ev.method("Get_B_e_pg")
-    axes = {"columnsX": 0, "columnsY": 1, "columnsZ": 2}
-    der = {"dNdx": 0, "dNdy": 1, "dNdz": 2}
-    src = ast.unparse(fn).replace(" ", "")
-    for need in ("cM=1/np.sqrt(2)", "columnsX=np.arange(0,nPe*dim,dim)", "columnsY=np.arange(1,nPe*dim,dim)", "columnsZ=np.arange(2,nPe*dim,dim)",
-                 "dNdx=dN_e_pg[:,:,0]", "dNdy=dN_e_pg[:,:,1]", "dNdz=dN_e_pg[:,:,2]"):
-        if need not in src:
-            raise TranslateError("%s:Get_B_e_pg: expected `%s`" % (GE, need))
     out = {}
-    ifs = [n for n in fn.body if isinstance(n, ast.If) and ast.unparse(n.test).replace(" ", "") == "self.dim==2"]
-    if len(ifs) != 1:
-        raise TranslateError("%s:Get_B_e_pg: expected one `if self.dim == 2` at top level" % GE)
-    for dim, body in ((2, ifs[0].body), (3, ifs[0].orelse)):
+    cm = "1/np.sqrt(2)"
+    for dim in (2, 3):
+        ret, eff = PEval(ev.ge, ev.cls, leaves={"self.dim": dim}, where=GE + ":Get_B_e_pg").evaluate(fn)
+        ns = {2: 3, 3: 6}[dim]
         rows = []
-        for s in body:
-            if isinstance(s, ast.Assign) and isinstance(s.targets[0], ast.Subscript) and ast.unparse(s.targets[0].value) == "B_e_pg":
-                el = s.targets[0].slice.elts
-                if len(el) != 4 or ast.unparse(el[0]) != ":" or ast.unparse(el[1]) != ":" or not isinstance(el[2], ast.Constant) or ast.unparse(el[3]) not in axes:
-                    raise TranslateError("%s:Get_B_e_pg: target %s" % (GE, ast.unparse(s.targets[0])))
-                v = ast.unparse(s.value).replace(" ", "")
-                scaled = False
-                if v.endswith("*cM"):
-                    v, scaled = v[:-3], True
-                elif v.startswith("cM*"):
-                    v, scaled = v[3:], True
-                if v not in der:
-                    raise TranslateError("%s:Get_B_e_pg: value %s" % (GE, ast.unparse(s.value)))
-                rows.append((el[2].value, axes[ast.unparse(el[3])], der[v], scaled))
+        base = None
+        for e in eff:
+            if e[0] != "store":
+                raise TranslateError("%s:Get_B_e_pg: unexpected effect %r" % (GE, e))
+            base = base or e[1]
+            if e[1] != base:
+                raise TranslateError("%s:Get_B_e_pg: stores into several arrays" % GE)
+            it = e[2].strip()
+            it = it[1:-1] if it.startswith("(") and it.endswith(")") else it
+            idx = ast.parse("x[%s]" % it, mode="eval").body.slice
+            if not (isinstance(idx, ast.Tuple) and len(idx.elts) == 4 and all(isinstance(x, ast.Slice) and x.lower is None and x.upper is None for x in idx.elts[:2])
+                    and isinstance(idx.elts[2], ast.Constant)):
+                raise TranslateError("%s:Get_B_e_pg: store index %s" % (GE, e[2]))
+            col = idx.elts[3]
+            if not (isinstance(col, ast.Call) and ast.unparse(col.func) == "np.arange" and len(col.args) == 3 and isinstance(col.args[0], ast.Constant)
+                    and ast.unparse(col.args[2]) == str(dim) and ast.unparse(col.args[1]).replace(" ", "") in ("self.nPe*%d" % dim, "%d*self.nPe" % dim)):
+                raise TranslateError("%s:Get_B_e_pg: column set %s" % (GE, ast.unparse(col)))
+            v = ast.parse(e[3], mode="eval").body
+            scaled = False
+            if isinstance(v, ast.BinOp) and isinstance(v.op, ast.Mult):
+                l, r = ast.unparse(v.left).replace(" ", ""), ast.unparse(v.right).replace(" ", "")
+                if r == cm:
+                    v, scaled = v.left, True
+                elif l == cm:
+                    v, scaled = v.right, True
+            if not (isinstance(v, ast.Subscript) and ast.unparse(v.value) == "self.Get_dN_e_pg(matrixType)" and isinstance(v.slice, ast.Tuple)
+                    and len(v.slice.elts) == 3 and isinstance(v.slice.elts[2], ast.Constant)):
+                raise TranslateError("%s:Get_B_e_pg: stored value %s" % (GE, e[3]))
+            rows.append((idx.elts[2].value, col.args[0].value, v.slice.elts[2].value, scaled))
+        if base is None or ("%d,self.nPe*%d" % (ns, dim)) not in base.replace(" ", "") or (ret or "").replace(" ", "") != ("FeArray.asfearray(%s)" % base).replace(" ", ""):
+            raise TranslateError("%s:Get_B_e_pg: array %s / return %s" % (GE, base, ret))
+        if len(set((r, d) for r, d, _, _ in rows)) != len(rows):
+            raise TranslateError("%s:Get_B_e_pg: an entry is stored twice" % GE)
         out[dim] = rows
     return out
 
@@ -237,42 +251,67 @@ THERMAL = "EasyFEA/Simulations/_thermal.py"
 WEAK = "EasyFEA/Simulations/_weakforms.py"
 
 
+def _find_method(mod, cname, mname, path):
+    for c in mod.body:
+        if isinstance(c, ast.ClassDef) and c.name == cname:
+            for n in c.body:
+                if isinstance(n, ast.FunctionDef) and n.name == mname:
+                    return c, n
+    raise TranslateError("%s: %s.%s not found" % (path, cname, mname))
+
+
 def simulation_facts(repo):
-    """how the dedicated Thermal simulation and the WeakForms simulation build their element arrays"""
+    """how the dedicated Thermal simulation and the WeakForms simulation build their element
+    arrays, read off the partially evaluated Construct_local_matrix_system (translator/peval.py:
+    locals / hoisted invariants / local closures inlined, the dimension tests decided per
+    configuration), so the layout of the code does not matter"""
+    from translator.peval import PEval
     tm = ast.parse(open(os.path.join(repo, THERMAL)).read())
-    fn = None
-    for n in ast.walk(tm):
-        if isinstance(n, ast.FunctionDef) and n.name == "Construct_local_matrix_system":
-            fn = n
-    if fn is None:
-        raise TranslateError("%s: Construct_local_matrix_system not found" % THERMAL)
-    src = ast.unparse(fn).replace(" ", "").replace("\n", "")
-    for need in ("K_e=Operators.Bilinear.GradUGradV(groupElem,coef=thermalModel.k)", "coef=self.rho*thermalModel.c",
-                 "C_e=Operators.Bilinear.UV(groupElem,coef=coef,dof_n=1)", "out[groupElem]=(K_e,C_e,None,None)"):
-        if need not in src:
-            raise TranslateError("%s: expected `%s`" % (THERMAL, need))
-    rule_t = None
-    for n in ast.walk(fn):
-        if isinstance(n, ast.If):
-            body = [ast.unparse(x).replace(" ", "") for x in n.body]
-            if "K_e*=thickness" in body and "C_e*=thickness" in body and "thickness=thermalModel.thickness" in body:
-                rule_t = ast.unparse(n.test).replace(" ", "")
-    if rule_t not in ("self.mesh.dim==2",):
-        raise TranslateError("%s: thickness rule `%s` not recognised" % (THERMAL, rule_t))
+    cls, fn = _find_method(tm, "Thermal", "Construct_local_matrix_system", THERMAL)
+    K0 = "Operators.Bilinear.GradUGradV(_L0, coef=self.thermalModel.k)"
+    C0 = "Operators.Bilinear.UV(_L0, coef=self.rho * self.thermalModel.c, dof_n=1)"
+    t = "self.thermalModel.thickness"
+    with_t = set()
+    for dim in (1, 2, 3):
+        ret, eff = PEval(tm, cls, leaves={"self.mesh.dim": dim}, where=THERMAL).evaluate(fn)
+        loops = [e for e in eff if e[0] == "for"]
+        if len(loops) != 1 or len(eff) != 1 or loops[0][2] != "self.mesh.Get_list_groupElem()":
+            raise TranslateError("%s: expected one loop over self.mesh.Get_list_groupElem(): %r" % (THERMAL, eff))
+        body = loops[0][3]
+        if len(body) != 1 or body[0][0] != "store" or body[0][2] != "_L0":
+            raise TranslateError("%s: loop body is not `out[groupElem] = (...)`: %r" % (THERMAL, body))
+        val = body[0][3].replace(" ", "")
+        plain = ("(%s, %s, None, None)" % (K0, C0)).replace(" ", "")
+        scaled = [("(%s * %s, %s * %s, None, None)" % (a, b, c, d)).replace(" ", "") for a, b, c, d in
+                  ((K0, t, C0, t), (t, K0, t, C0))]
+        if val == plain:
+            pass
+        elif val in scaled:
+            with_t.add(dim)
+        else:
+            raise TranslateError("%s: element arrays for mesh.dim=%d not recognised: %s" % (THERMAL, dim, body[0][3]))
+    if with_t != {2}:
+        raise TranslateError("%s: the thickness is applied for mesh.dim in %s (model: {2})" % (THERMAL, sorted(with_t)))
     wm = ast.parse(open(os.path.join(repo, WEAK)).read())
-    fn = None
-    for n in ast.walk(wm):
-        if isinstance(n, ast.FunctionDef) and n.name == "Construct_local_matrix_system":
-            fn = n
-    if fn is None:
-        raise TranslateError("%s: Construct_local_matrix_system not found" % WEAK)
-    src = ast.unparse(fn).replace(" ", "").replace("\n", "")
-    for need in ("field=weakForms.field", "thickness=1.0ifself.mesh.inDim==3elseweakForms.thickness",
-                 "K_e=computeK.Integrate_e(field)*thickness", "C_e=computeC.Integrate_e(field)*thickness",
-                 "M_e=computeM.Integrate_e(field)*thickness", "F_e=computeF.Integrate_e(field)*thickness",
-                 "return{self.mesh.groupElem:(K_e,C_e,M_e,F_e)}"):
-        if need not in src:
-            raise TranslateError("%s: expected `%s`" % (WEAK, need))
+    cls, fn = _find_method(wm, "WeakForms", "Construct_local_matrix_system", WEAK)
+    roles = ["self.weakForms.compute%s" % r for r in "KCMF"]
+    unit = set()
+    for ind in (1, 2, 3):
+        ret, eff = PEval(wm, cls, leaves={"self.mesh.inDim": ind}, optional=roles, where=WEAK).evaluate(fn)
+        if eff:
+            raise TranslateError("%s: unexpected side effects %r" % (WEAK, eff[:2]))
+        got = (ret or "").replace(" ", "")
+        ok = None
+        for fac, tag in (("self.weakForms.thickness", "t"), ("1.0", "1")):
+            exp = "{self.mesh.groupElem: (%s)}" % ", ".join("None if %s is None else %s.Integrate_e(self.weakForms.field) * %s" % (r, r, fac) for r in roles)
+            if got == exp.replace(" ", ""):
+                ok = tag
+        if ok is None:
+            raise TranslateError("%s: element arrays for mesh.inDim=%d not recognised: %s" % (WEAK, ind, ret))
+        if ok == "1":
+            unit.add(ind)
+    if unit != {3}:
+        raise TranslateError("%s: the thickness is dropped for mesh.inDim in %s (model: {3})" % (WEAK, sorted(unit)))
     return {"thermal_thickness_rule": "dim==2", "weak_thickness_rule": "inDim==3->1"}
 
 
